@@ -200,6 +200,10 @@ void scenario(Chooser& ch, int nthreads, int nscripts, int bound) {
     int sidx[sched::MAXT];
     for (int i = 0; i < nthreads; i++) sidx[i] = ch.choose(nscripts);
     arena_reset();
+    // the threads report their misuses on the shell that stands for "outside a test run": a process-wide object whose
+    // "has already failed" mark would otherwise leak from one execution into the next (and make a replay in a fresh
+    // process differ from the execution it replays)
+    UtestShell::getCurrent()->hasFailed_ = false;
     g_console_misuse_reports = g_console_other_failures = 0;
     g_lockset_violations = 0; g_lockset_tag[0] = 0; g_h1_points = 0;
     for (int i = 0; i < nthreads; i++) { g_tc[i] = ThreadCtx(); g_tc[i].script = g_script_table[sidx[i]]; sched::S.body[i] = [i]() { run_script(i); }; }
